@@ -526,7 +526,7 @@ GCA = ("let addr = match ( os, err::ExceptionCodeWindows::from_u32(self.raw.exce
        "self.raw.exception_record.exception_information[1] } _ => self.raw.exception_record.exception_address, }; "
        "match cpu.pointer_width() { PointerWidth::Bits32 => addr as u32 as u64, _ => addr, }")
 if gca != GCA:
-    die("MinidumpException::get_crash_address changed; coq/C19/Driver.v (q_address) must be re-read against it:\n" + gca)
+    die("MinidumpException::get_crash_address changed; coq/C19/Pipeline.v (crash_address) must be re-read against it:\n" + gca)
 wcodes = {n: int(v, 0) for n, v in re.findall(r"(EXCEPTION_ACCESS_VIOLATION|EXCEPTION_IN_PAGE_ERROR)\s*=\s*(0x[0-9a-fA-F]+)(?:u32)?\s*,",
                                               fn_body(errs, r"pub enum ExceptionCodeWindows\s*\{", "ExceptionCodeWindows"))}
 if set(wcodes) != {"EXCEPTION_ACCESS_VIOLATION", "EXCEPTION_IN_PAGE_ERROR"}:
